@@ -49,7 +49,8 @@ impl<X: ArrayElement + 'static> ToV for Array<X> {
         V::Opq(shape)
     }
 }
-impl<A: ToV> ToV for Vec<A> { fn to_v(self) -> V { V::L(self.into_iter().map(ToV::to_v).collect()) } }
+/// a Vec of pairs (qr, eig) is stored flattened: every member array is monitored and can be picked by `member`
+impl<A: ToV> ToV for Vec<A> { fn to_v(self) -> V { let mut out = vec![]; for x in self { match x.to_v() { V::L(l) => out.extend(l), v => out.push(v) } } V::L(out) } }
 impl<A: ToV, B: ToV> ToV for (A, B) { fn to_v(self) -> V { V::L(vec![self.0.to_v(), self.1.to_v()]) } }
 /// non-array results (unit, scalars): nothing to monitor
 struct NoArr;
@@ -373,6 +374,7 @@ fn run_modelled(st: &[V], name: &str, a: &[&str], ty: &str) -> Option<Out> {
             if name == "ldexp" { return Some(match (g!(0), g!(1)) { (V::F64(x), V::I32(y)) => fin(x.ldexp(y)), _ => skip() }); }
             if name.starts_with("op_bit") { let j = if a.len() > 1 { 1 } else { 0 }; return Some(match (g!(0), g!(j)) { (V::I32(x), V::I32(y)) => operator_bits(name, x, y)?, (V::I64(x), V::I64(y)) => operator_bits(name, x, y)?,
                 (V::U8(x), V::U8(y)) => operator_bits(name, x, y)?, (V::Us(x), V::Us(y)) => operator_bits(name, x, y)?, (V::Is(x), V::Is(y)) => operator_bits(name, x, y)?, (V::B(x), V::B(y)) => operator_bits(name, x, y)?, _ => skip() }); }
+            if name == "round" || name == "around" { return run_unmodelled(st, name, a, ty); }
             if name.starts_with("op_") { let j = if a.len() > 1 { 1 } else { 0 }; return Some(match (g!(0), g!(j)) { (V::I32(x), V::I32(y)) => operator_ops(name, x, y)?, (V::I64(x), V::I64(y)) => operator_ops(name, x, y)?,
                 (V::F64(x), V::F64(y)) => operator_ops(name, x, y)?, _ => skip() }); }
             return None;
@@ -492,6 +494,391 @@ fn run_step(st: &[V], step: &str, bad: &mut Vec<String>) -> Out {
     match r { Ok(Some(o)) => o, Ok(None) => Out { cls: "unknown", v: V::Nil }, Err(_) => Out { cls: "panic", v: V::Nil } }
 }
 
+// ---------------------------------------------------------------- gen: typed random chains, built by running them
+
+const TYPES: [&str; 8] = ["i32", "i64", "u8", "usize", "f64", "bool", "str", "t2"];
+/// operations whose result VALUES are the model's values when the inputs' are (element type i64)
+const FAITHFUL: [&str; 58] = ["new", "create", "single", "flat", "empty", "zeros", "ones", "full", "zeros_like", "ones_like", "full_like", "eye", "identity", "tri",
+    "diag", "diagflat", "tril", "triu", "transpose", "moveaxis", "rollaxis", "swapaxes", "expand_dims", "squeeze", "reshape", "resize", "ravel", "atleast",
+    "cycle_take", "apply_along_axis", "broadcast_to", "broadcast_arrays", "array_split", "split", "split_axis", "hsplit", "vsplit", "dsplit", "member",
+    "concatenate", "stack", "vstack", "hstack", "dstack", "column_stack", "row_stack", "flip", "flipud", "fliplr", "roll", "rot90", "delete", "insert", "append",
+    "repeat", "trim_zeros", "filter_e", "filter_map_e"];
+/// modelled operations whose outcome class / shape depends on element VALUES: modelled only on value-faithful inputs, `u.` otherwise
+const VALDEP: [&str; 9] = ["trim_zeros", "filter", "unique", "divide", "true_divide", "fmod", "remainder", "mod", "floor_divide"];
+
+const CTORS: [&str; 16] = ["new", "create", "single", "flat", "empty", "zeros", "ones", "full", "rand", "eye", "identity", "tri", "arange", "linspace", "u.logspace", "u.geomspace"];
+const OPS_ALL: [&str; 56] = ["transpose", "moveaxis", "rollaxis", "swapaxes", "expand_dims", "squeeze", "reshape", "resize", "ravel", "atleast", "cycle_take",
+    "apply_along_axis", "broadcast_to", "broadcast", "broadcast_arrays", "zip", "array_split", "split", "split_axis", "hsplit", "vsplit", "dsplit", "member",
+    "concatenate", "stack", "vstack", "hstack", "dstack", "column_stack", "row_stack", "flip", "flipud", "fliplr", "roll", "rot90", "delete", "insert", "append",
+    "repeat", "trim_zeros", "map", "map_e", "filter_e", "filter_map_e", "filter", "count_nonzero", "argmax", "argmin", "sort", "argsort", "unique",
+    "u.slice", "u.indices_at", "u.insert_axis", "u.for_each", "u.filter_map"];
+const OPS_NUM_EXTRA: [&str; 17] = ["zeros_like", "ones_like", "full_like", "diag", "diagflat", "tril", "triu", "vander", "clip", "u.clip0", "u.clip1", "u.clip2", "round", "u.modf",
+    "u.divmod", "u.convolve", "u.linspace_a"];
+const OPS_OPS_EXTRA: [&str; 16] = ["vdot", "outer", "inner", "matmul", "dot", "op_neg", "u.det", "u.qr", "u.eigvals", "u.eig", "u.solve", "u.norm", "u.diff", "u.ediff1d", "u.unwrap_phase", "u.fold"];
+const OPS_STR: [&str; 10] = ["u.zfill", "u.translate", "u.splitlines", "u.multiply", "u.center", "u.ljust", "u.rjust", "u.split", "u.rsplit", "u.replace"];
+
+fn is_num(t: &str) -> bool { matches!(t, "i32" | "i64" | "u8" | "usize" | "f64" | "isize") }
+fn is_ops(t: &str) -> bool { matches!(t, "i32" | "i64" | "f64") }
+fn is_int(t: &str) -> bool { matches!(t, "i32" | "i64" | "u8" | "usize" | "isize" | "bool") }
+
+struct G { rng: Rng, steps: Vec<String>, store: Vec<V>, faithful: Vec<bool>, ty: &'static str }
+
+impl G {
+    fn new(seed: u64, ty: &'static str) -> G { G { rng: Rng::new(seed), steps: vec![], store: vec![], faithful: vec![], ty } }
+    fn coin(&mut self, pct: usize) -> bool { self.rng.below(100) < pct }
+    fn dim(&mut self) -> usize { match self.rng.below(20) { 0 => 0, 1..=4 => 1, 5..=10 => 2, 11..=15 => 3, 16..=18 => 4, _ => 5 } }
+    fn shape(&mut self) -> Vec<usize> {
+        let r = match self.rng.below(20) { 0 => 0, 1..=5 => 1, 6..=12 => 2, 13..=17 => 3, _ => 4 };
+        (0..r).map(|_| self.dim()).collect()
+    }
+    /// run the step on the real crate, record it (unmodelled steps get the observed result shape appended)
+    fn push(&mut self, step: String) -> usize {
+        let mut bad = vec![];
+        let o = run_step(&self.store, &step, &mut bad);
+        let name = label_of(&step).to_string();
+        let refs = step_refs(&step);
+        let text = if name.starts_with("u.") { let r = record(&o); format!("{}|={}", step, if matches!(r.as_str(), "E" | "P" | "S" | "N") { "N".to_string() } else { r }) } else { step };
+        let f = FAITHFUL.contains(&name.as_str()) && refs.iter().all(|&r| self.faithful.get(r).copied().unwrap_or(false))
+            && (matches!(&o.v, V::I64(_)) || matches!(&o.v, V::L(l) if l.iter().all(|x| matches!(x, V::I64(_)))));
+        self.steps.push(text);
+        self.store.push(if o.cls == "ok" { o.v } else { V::Nil });
+        self.faithful.push(f);
+        self.store.len() - 1
+    }
+    fn arrays(&self, pred: &dyn Fn(&str) -> bool) -> Vec<usize> {
+        (0..self.store.len()).filter(|&i| match &self.store[i] { V::L(_) | V::Opq(_) | V::Nil => false,
+            v => pred(ty_of(v)) && shape_of(v).map_or(false, |s| s.iter().product::<usize>() <= 400 && s.len() <= 6) }).collect()
+    }
+    fn pick(&mut self, pred: &dyn Fn(&str) -> bool) -> Option<usize> {
+        let c = self.arrays(pred);
+        if c.is_empty() { return None; }
+        if self.coin(65) { let k = c.len().min(3); Some(c[c.len() - 1 - self.rng.below(k)]) } else { Some(c[self.rng.below(c.len())]) }
+    }
+    fn sh(&self, i: usize) -> Vec<usize> { shape_of(&self.store[i]).unwrap_or_default() }
+    fn tyi(&self, i: usize) -> &'static str { ty_of(&self.store[i]) }
+    /// a fresh array of the element type of entry `i` with the given shape
+    fn fresh(&mut self, ty: &str, shape: &[usize]) -> usize {
+        let n: usize = shape.iter().product();
+        let off = self.rng.range(-3, 20);
+        self.push(format!("new|{}|{}|{}|#{}", n, off, show_list(shape), ty))
+    }
+    fn axis(&mut self, r: usize) -> isize {
+        if r == 0 || self.coin(7) { return self.rng.range(-(r as i64) - 2, r as i64 + 1) as isize; }
+        self.rng.range(-(r as i64), r as i64 - 1) as isize
+    }
+    fn uaxis(&mut self, r: usize) -> usize { if r == 0 || self.coin(7) { r + self.rng.below(2) } else { self.rng.below(r) } }
+    fn oaxis(&mut self, r: usize) -> String { if self.coin(30) { "none".into() } else { self.axis(r).to_string() } }
+    fn ouaxis(&mut self, r: usize) -> String { if self.coin(30) { "none".into() } else { self.uaxis(r).to_string() } }
+    fn kd(&mut self) -> &'static str { *self.rng.pick(&["none", "true", "false"]) }
+    /// a shape that broadcasts with `s` (mostly)
+    fn compat(&mut self, s: &[usize]) -> Vec<usize> {
+        match self.rng.below(10) {
+            0..=3 => s.to_vec(),
+            4..=5 => s.iter().map(|&d| if self.rng.below(2) == 0 { 1 } else { d }).collect(),
+            6 => { let k = self.rng.below(s.len() + 1); s[k..].to_vec() }
+            7 => vec![1],
+            8 => { let mut t = vec![self.rng.below(3) + 1]; t.extend_from_slice(s); t }
+            _ => self.shape(),
+        }
+    }
+    fn partner(&mut self, i: usize, shape: Vec<usize>) -> usize {
+        let ty = self.tyi(i);
+        let c: Vec<usize> = self.arrays(&|t| t == ty).into_iter().filter(|&j| self.sh(j) == shape).collect();
+        if !c.is_empty() && self.coin(50) { c[self.rng.below(c.len())] } else { self.fresh(ty, &shape) }
+    }
+    fn sublist(&mut self, n: usize, max: usize) -> Vec<usize> { let k = self.rng.below(max + 1); (0..k).map(|_| self.rng.below(n.max(1) + 1)).collect() }
+
+    /// emit one step of operation `op` (plus helper constructor steps); false = not applicable now
+    fn emit(&mut self, op: &str) -> bool {
+        let base = op.strip_prefix("u.").unwrap_or(op).to_string();
+        let b = base.as_str();
+        let ty = self.ty;
+        // ----- constructors
+        if CTORS.contains(&op) {
+            let numeric = is_num(ty);
+            let s = self.shape();
+            let n: usize = s.iter().product();
+            let step = match b {
+                "new" => { let n2 = if self.coin(8) { n + 1 + self.rng.below(2) } else { n }; format!("new|{}|{}|{}|#{}", n2, self.rng.range(-3, 9), show_list(&s), ty) }
+                "create" => { let n2 = if self.coin(8) { n + 1 } else { n }; let nd = if self.coin(40) { "none".to_string() } else { self.rng.below(6).to_string() }; format!("create|{}|{}|{}|#{}", n2, show_list(&s), nd, ty) }
+                "single" => format!("single|#{}", ty),
+                "flat" => format!("flat|{}|#{}", self.rng.below(9), ty),
+                "empty" => format!("empty|#{}", ty),
+                _ if !numeric => return false,
+                "zeros" | "ones" | "full" | "rand" => format!("{}|{}|#{}", b, show_list(&s), ty),
+                "eye" => { let m = if self.coin(40) { "none".to_string() } else { self.rng.below(5).to_string() }; let k = if self.coin(50) { "none".to_string() } else { self.rng.below(4).to_string() };
+                    format!("eye|{}|{}|{}|#{}", self.rng.below(5), m, k, ty) }
+                "identity" => format!("identity|{}|#{}", self.rng.below(5), ty),
+                "tri" => { let m = if self.coin(40) { "none".to_string() } else { self.rng.below(5).to_string() }; let k = if self.coin(40) { "none".to_string() } else { self.rng.range(-3, 3).to_string() };
+                    format!("tri|{}|{}|{}|#{}", self.rng.below(5), m, k, ty) }
+                "arange" => { let a = self.rng.below(4); let st = if self.coin(40) { "none".to_string() } else { (1 + self.rng.below(3)).to_string() }; format!("arange|{}|{}|{}|#{}", a, a + self.rng.below(9), st, ty) }
+                "linspace" => { let a = self.rng.below(4); let num = if self.coin(20) { "none".to_string() } else { (1 + self.rng.below(7)).to_string() };
+                    format!("linspace|{}|{}|{}|{}|#{}", a, a + self.rng.below(9), num, self.kd(), ty) }
+                _ => { let num = if self.coin(20) { "none".to_string() } else { (1 + self.rng.below(6)).to_string() }; format!("{}|{}|{}|{}|{}|#{}", op, 1 + self.rng.below(3), 1 + self.rng.below(4), num, self.kd(), ty) }
+            };
+            self.push(step);
+            return true;
+        }
+        // ----- operand
+        let class: &dyn Fn(&str) -> bool = if OPS_STR.contains(&op) || (op.starts_with("u.") && (STR_UNARY.contains(&b) || STR_BINARY.contains(&b) || b == "compare")) { &|t| t == "str" }
+            else if OPS_ALL.contains(&op) { &|_| true }
+            else if OPS_OPS_EXTRA.contains(&op) || FOLD_OPS.contains(&b) || SCAN_OPS.contains(&b) || UNARY_OPS.contains(&b) || BIN_OPS.contains(&b) || (b.starts_with("op_") && !b.starts_with("op_bit") && b != "op_not") { &is_ops }
+            else if b.starts_with("op_bit") { &is_int }
+            else if b == "op_not" { &|t| t == "bool" }
+            else if UNARY_FLT.contains(&b) || BIN_FLT.contains(&b) || b == "ldexp" || b == "frexp" { &|t| t == "f64" }
+            else if b == "unpack_bits" || b == "pack_bits" { &|t| t == "u8" }
+            else { &is_num };
+        if b == "member" {
+            let ls: Vec<usize> = (0..self.store.len()).filter(|&i| matches!(&self.store[i], V::L(l) if !l.is_empty())).collect();
+            if ls.is_empty() { return false; }
+            let l = ls[self.rng.below(ls.len())];
+            let n = if let V::L(x) = &self.store[l] { x.len() } else { 0 };
+            let j = if self.coin(5) { n } else { self.rng.below(n) };
+            self.push(format!("member|@{}|{}", l, j));
+            return true;
+        }
+        let mut i = match self.pick(class) { Some(i) => i, None => return false };
+        if ["det", "qr", "eigvals", "eig", "solve"].contains(&b) && self.coin(70) {
+            // a square, non-singular matrix of the operand's element type (lower-triangular ones, sometimes flipped / stacked)
+            let t = self.tyi(i); let n = 1 + self.rng.below(4);
+            i = self.push(format!("tri|{}|none|none|#{}", n, t));
+            if self.coin(30) { i = self.push(format!("flipud|@{}", i)); }
+            if self.coin(15) { i = self.push(format!("stack|@{},{}|0", i, i)); }
+        }
+        let s = self.sh(i);
+        let r = s.len();
+        let n: usize = s.iter().product();
+        let t = self.tyi(i);
+        // value-dependent modelled operations are modelled only on value-faithful inputs
+        let mut name = op.to_string();
+        let step = match b {
+            "split" | "rsplit" if op.starts_with("u.") => { let sep = if self.coin(40) { "none".to_string() } else { let ps = self.compat(&s); format!("@{}", self.partner(i, ps)) };
+                format!("@{}|{}|{}", i, sep, *self.rng.pick(&["none", "0", "1", "2"])) }
+            "transpose" => { let ax = if self.coin(35) { "none".to_string() } else { let p = self.rng.perm(r); let mut v: Vec<isize> = p.iter().map(|&x| if self.rng.below(4) == 0 { x as isize - r as isize } else { x as isize }).collect();
+                    if self.coin(6) && r > 0 { v[0] = r as isize; } show_list(&v) }; format!("@{}|{}", i, ax) }
+            "moveaxis" => { let k = if r == 0 { 0 } else { 1 + self.rng.below(r.min(2)) }; let p = self.rng.perm(r); let q = self.rng.perm(r);
+                let src: Vec<isize> = p[..k].iter().map(|&x| x as isize).collect(); let mut dst: Vec<isize> = q[..k].iter().map(|&x| if self.rng.below(4) == 0 { x as isize - r as isize } else { x as isize }).collect();
+                if self.coin(5) { dst.push(0); } format!("@{}|{}|{}", i, show_list(&src), show_list(&dst)) }
+            "rollaxis" => { let st = if self.coin(40) { "none".to_string() } else { self.axis(r).to_string() }; format!("@{}|{}|{}", i, self.axis(r), st) }
+            "swapaxes" => format!("@{}|{}|{}", i, self.axis(r), self.axis(r)),
+            "expand_dims" => { let k = 1 + self.rng.below(2); let mut ax: Vec<isize> = vec![]; for _ in 0..k { let extra = if self.coin(6) { 3 } else { 0 }; let c = self.rng.range(-(r as i64) - 1, r as i64 + extra) as isize; if !ax.contains(&c) { ax.push(c); } } format!("@{}|{}", i, show_list(&ax)) }
+            "squeeze" => { let ones: Vec<isize> = (0..r).filter(|&k| s[k] == 1).map(|k| k as isize).collect();
+                let ax = if self.coin(40) { "none".to_string() } else if !ones.is_empty() && self.coin(85) { let k = 1 + self.rng.below(ones.len()); show_list(&ones[..k]) } else { self.axis(r).to_string() }; format!("@{}|{}", i, ax) }
+            "reshape" => { let ns = self.reshape_target(&s); format!("@{}|{}", i, show_list(&ns)) }
+            "resize" => { let ns = self.shape(); format!("@{}|{}", i, show_list(&ns)) }
+            "ravel" | "flipud" | "fliplr" | "map" | "map_e" | "zeros_like" | "ones_like" | "full_like" | "op_neg" | "op_not" | "for_each" | "fold" | "filter_map" | "modf" | "divmod" | "frexp"
+                | "det" | "qr" | "eigvals" | "eig" | "ediff1d" | "clip0" | "translate" => format!("@{}", i),
+            "trim_zeros" | "filter" => format!("@{}", i),
+            "atleast" => format!("@{}|{}", i, self.rng.below(5)),
+            "cycle_take" => format!("@{}|{}", i, self.rng.below(2 * n + 3)),
+            "apply_along_axis" => { let f = match self.rng.below(3) { 0 => "id".to_string(), 1 => "rev".to_string(), _ => format!("ct{}", self.rng.below(5)) }; format!("@{}|{}|{}", i, self.uaxis(r), f) }
+            "broadcast_to" => { let mut ns: Vec<usize> = s.iter().map(|&d| if d == 1 && self.rng.below(2) == 0 { 1 + self.rng.below(3) } else { d }).collect();
+                if self.coin(40) { ns.insert(0, 1 + self.rng.below(3)); } if self.coin(10) { ns = self.shape(); } format!("@{}|{}", i, show_list(&ns)) }
+            "broadcast" | "zip" | "clip1" | "clip2" => { let ps = self.compat(&s); let j = self.partner(i, ps); format!("@{}|@{}", i, j) }
+            "linspace_a" | "geomspace_a" | "logspace_a" => { let j = self.partner(i, s.clone()); format!("@{}|@{}|{}|{}", i, j, 1 + self.rng.below(4), self.kd()) }
+            "clip" => { let p1 = self.compat(&s); let p2 = self.compat(&s); let j = self.partner(i, p1); let k = self.partner(i, p2); format!("@{}|@{}|@{}", i, j, k) }
+            "broadcast_arrays" => { let p1 = self.compat(&s); let j = self.partner(i, p1); if self.coin(50) { let p2 = self.compat(&s); let k = self.partner(i, p2); format!("@{},{},{}", i, j, k) } else { format!("@{},{}", i, j) } }
+            "array_split" | "split" => { let ax = self.ouaxis(r); let d = s.get(ax.parse::<usize>().unwrap_or(0)).copied().unwrap_or(1);
+                let parts = if self.coin(70) { let divs: Vec<usize> = (1..=d.max(1)).filter(|k| d % k == 0).collect(); *self.rng.pick(&divs) } else { self.rng.below(5) }; format!("@{}|{}|{}", i, parts, ax) }
+            "split_axis" => format!("@{}|{}", i, self.uaxis(r)),
+            "hsplit" | "vsplit" | "dsplit" => { let k = match b { "hsplit" => if r == 1 { 0 } else { 1 }, "vsplit" => 0, _ => 2 }; let d = s.get(k).copied().unwrap_or(1);
+                let parts = if self.coin(75) { let divs: Vec<usize> = (1..=d.max(1)).filter(|k| d % k == 0).collect(); *self.rng.pick(&divs) } else { self.rng.below(4) }; format!("@{}|{}", i, parts) }
+            "concatenate" | "stack" | "vstack" | "hstack" | "dstack" | "column_stack" | "row_stack" => {
+                // a stored list of same-typed arrays (a split result) or explicit positions
+                let ls: Vec<usize> = (0..self.store.len()).filter(|&k| matches!(&self.store[k], V::L(l) if !l.is_empty() && l.len() <= 6 && l.iter().all(|x| !matches!(x, V::Opq(_) | V::L(_) | V::Nil) && ty_of(x) == ty_of(&l[0])))).collect();
+                let refs = if !ls.is_empty() && self.coin(35) { format!("@L{}", ls[self.rng.below(ls.len())]) } else {
+                    let cnt = if self.coin(6) { 0 } else { 1 + self.rng.below(3) };
+                    let ax = if r == 0 { 0 } else { self.rng.below(r) };
+                    let mut ids = vec![i];
+                    for _ in 1..cnt.max(1) {
+                        let mut ps = s.clone();
+                        let vary = match b { "concatenate" => Some(ax), "vstack" | "row_stack" => Some(0), "hstack" => if r == 1 { Some(0) } else { None }, "column_stack" => if r == 2 { Some(1) } else { None }, _ => None };
+                        if let Some(k) = vary { if k < ps.len() && self.coin(60) { ps[k] = self.rng.below(4); } }
+                        if self.coin(8) { ps = self.shape(); }
+                        ids.push(self.partner(i, ps));
+                    }
+                    if cnt == 0 { "@".to_string() } else { format!("@{}", show_list(&ids)) }
+                };
+                match b { "concatenate" | "stack" => format!("{}|{}", refs, self.ouaxis(r)), _ => refs }
+            }
+            "flip" => { let ax = if self.coin(35) { "none".to_string() } else { let k = 1 + self.rng.below(2); show_list(&(0..k).map(|_| self.axis(r)).collect::<Vec<_>>()) }; format!("@{}|{}", i, ax) }
+            "roll" => { let k = 1 + self.rng.below(2); let sh: Vec<isize> = (0..k).map(|_| self.rng.range(-7, 7) as isize).collect();
+                let ax = if self.coin(35) { "none".to_string() } else { let m = if self.coin(70) { k } else { 1 }; show_list(&(0..m).map(|_| self.axis(r)).collect::<Vec<_>>()) }; format!("@{}|{}|{}", i, show_list(&sh), ax) }
+            "rot90" => { let ax = if self.coin(10) { vec![0] } else { vec![self.axis(r), self.axis(r)] }; format!("@{}|{}|{}", i, self.rng.below(6), show_list(&ax)) }
+            "delete" => { let ax = self.ouaxis(r); let lim = if ax == "none" { n } else { s.get(ax.parse::<usize>().unwrap_or(0)).copied().unwrap_or(1) };
+                let k = self.rng.below(3); let ix: Vec<usize> = (0..k).map(|_| if self.coin(7) { lim + 1 } else { self.rng.below(lim.max(1)) }).collect(); format!("@{}|{}|{}", i, show_list(&ix), ax) }
+            "insert" => { let k = 1 + self.rng.below(2); let ix: Vec<usize> = (0..k).map(|_| if self.coin(6) { n + 2 } else { self.rng.below(n + 1) }).collect();
+                let vs = if self.coin(50) { vec![1] } else if self.coin(80) { vec![k] } else { self.shape() }; let j = self.partner(i, vs); format!("@{}|{}|@{}", i, show_list(&ix), j) }
+            "insert_axis" => { let ax = self.uaxis(r); let d = s.get(ax).copied().unwrap_or(1); let ix = vec![self.rng.below(d + 1)]; let mut vs = s.clone(); if ax < vs.len() { vs[ax] = 1; }
+                let j = if self.coin(50) { self.partner(i, vs) } else { self.partner(i, vec![1]) }; format!("@{}|{}|@{}|{}", i, show_list(&ix), j, ax) }
+            "append" => { let ax = self.ouaxis(r); let mut ps = s.clone(); if let Ok(k) = ax.parse::<usize>() { if k < ps.len() { ps[k] = self.rng.below(4); } } else if self.coin(60) { ps = self.shape(); }
+                if self.coin(6) { ps = self.shape(); } let j = self.partner(i, ps); format!("@{}|@{}|{}", i, j, ax) }
+            "repeat" => { let ax = self.ouaxis(r); let lim = if ax == "none" { n } else { s.get(ax.parse::<usize>().unwrap_or(0)).copied().unwrap_or(1) };
+                let reps: Vec<usize> = if self.coin(55) { vec![self.rng.below(4)] } else if lim <= 12 && self.coin(85) { (0..lim).map(|_| self.rng.below(3)).collect() } else { vec![1, 2] }; format!("@{}|{}|{}", i, show_list(&reps), ax) }
+            "filter_e" | "filter_map_e" => { let m = 1 + self.rng.below(4); format!("@{}|{}|{}", i, m, self.rng.below(m + 1)) }
+            "count_nonzero" | "argmax" | "argmin" => format!("@{}|{}|{}", i, self.oaxis(r), self.kd()),
+            "sort" | "argsort" => { let k = if self.coin(4) { "s:bogus" } else { *self.rng.pick(&["none", "s:quicksort", "s:mergesort", "s:heapsort", "s:stable", "s:QuickSort"]) }; format!("@{}|{}|{}", i, self.oaxis(r), k) }
+            "unique" | "unwrap_phase" => format!("@{}|{}", i, self.oaxis(r)),
+            "diag" | "diagflat" | "tril" | "triu" => { let k = if self.coin(40) { "none".to_string() } else { self.rng.range(-3, 3).to_string() }; format!("@{}|{}", i, k) }
+            "vander" => { let k = if self.coin(40) { "none".to_string() } else { self.rng.below(5).to_string() }; format!("@{}|{}|{}", i, k, self.kd()) }
+            "vdot" => { let ps = if self.coin(85) { vec![n] } else { self.shape() }; let j = self.partner(i, ps); format!("@{}|@{}", i, j) }
+            "outer" => { let ps = self.shape(); let j = self.partner(i, ps); format!("@{}|@{}", i, j) }
+            "inner" => { let mut ps = self.shape(); if self.coin(85) { if let (Some(l), Some(&d)) = (ps.last_mut(), s.last()) { *l = d; } else if let Some(&d) = s.last() { ps = vec![d]; } } let j = self.partner(i, ps); format!("@{}|@{}", i, j) }
+            "solve" if r >= 2 && self.coin(85) => { let ps = if self.coin(50) { vec![s[r - 1]] } else { vec![s[r - 1], 1 + self.rng.below(3)] }; let j = self.partner(i, ps); format!("@{}|@{}", i, j) }
+            "matmul" | "dot" | "solve" => { let ps = match (r, self.rng.below(10)) { (0, _) => self.shape(), (1, 0..=4) => vec![s[0]], (1, _) => vec![s[0], self.dim()], (_, 0..=1) => vec![s[r - 1]], (_, 2..=6) => vec![s[r - 1], self.dim()],
+                    (_, 7..=8) => { let mut p = s.clone(); p[r - 2] = s[r - 1]; p[r - 1] = self.dim(); p } _ => self.shape() }; let j = self.partner(i, ps); format!("@{}|@{}", i, j) }
+            "unpack_bits" => { let c = if self.coin(50) { "none".to_string() } else { self.rng.range(-9, 20).to_string() }; format!("@{}|{}|{}|{}", i, self.oaxis(r), c, *self.rng.pick(&["big", "little", "big", "little", "middle"])) }
+            "pack_bits" => format!("@{}|{}|{}", i, self.oaxis(r), *self.rng.pick(&["big", "little"])),
+            "slice" => { let lo = self.rng.below(n + 2); format!("@{}|{}|{}", i, lo, lo + self.rng.below(n + 2)) }
+            "indices_at" => { let k = self.rng.below(4); let lim = s.first().copied().unwrap_or(1); format!("@{}|{}", i, show_list(&(0..k).map(|_| self.rng.below(lim + 1)).collect::<Vec<_>>())) }
+            "round" | "around" => { let ps = self.compat(&s); let nn: usize = ps.iter().product(); let j = self.push(format!("new|{}|{}|{}|#isize", nn, -1, show_list(&ps))); format!("@{}|@{}", i, j) }
+            "convolve" => { let j = if self.coin(80) { let m = 1 + self.rng.below(4); self.fresh(t, &[m]) } else { let ps = self.shape(); self.partner(i, ps) }; format!("@{}|@{}|{}", i, j, *self.rng.pick(&["none", "full", "valid", "same", "bogus"])) }
+            "norm" => { let ord = *self.rng.pick(&["none", "fro", "nuc", "inf", "-inf", "1", "2", "-1", "0", "bogus"]);
+                let ax = if self.coin(50) { "none".to_string() } else if self.coin(50) { self.axis(r).to_string() } else { show_list(&[self.axis(r), self.axis(r)]) }; format!("@{}|{}|{}|{}", i, ord, ax, self.kd()) }
+            "diff" => format!("@{}|{}|{}", i, self.rng.below(3), self.oaxis(r)),
+            "ldexp" => { let ps = self.compat(&s); let nn: usize = ps.iter().product(); let j = self.push(format!("new|{}|{}|{}|#i32", nn, -1, show_list(&ps))); format!("@{}|@{}", i, j) }
+            "zfill" => format!("@{}|{}", i, self.rng.below(9)),
+            "splitlines" => format!("@{}|{}", i, self.kd()),
+            "multiply" if t == "str" => { let ps = self.compat(&s); let nn: usize = ps.iter().product(); let j = self.push(format!("new|{}|{}|{}|#usize", nn, 0, show_list(&ps))); format!("@{}|@{}", i, j) }
+            "center" | "ljust" | "rjust" => { let ps = self.compat(&s); let nn: usize = ps.iter().product(); let j = self.push(format!("new|{}|{}|{}|#usize", nn, 2, show_list(&ps))); format!("@{}|@{}|{}", i, j, *self.rng.pick(&["none", "*", "-"])) }
+            "replace" => { let p1 = self.compat(&s); let p2 = self.compat(&s); let j = self.partner(i, p1); let k = self.partner(i, p2); format!("@{}|@{}|@{}|{}", i, j, k, *self.rng.pick(&["none", "0", "1", "2"])) }
+            "compare" => { let ps = self.compat(&s); let j = self.partner(i, ps); format!("@{}|@{}|{}", i, j, *self.rng.pick(&["==", "!=", ">", "<", ">=", "<=", "equals", "bogus"])) }
+            _ => {
+                if FOLD_OPS.contains(&b) || EXTREME_OPS.contains(&b) || SCAN_OPS.contains(&b) { format!("@{}|{}", i, self.oaxis(r)) }
+                else if UNARY_NUM.contains(&b) || UNARY_OPS.contains(&b) || UNARY_FLT.contains(&b) || STR_UNARY.contains(&b) { format!("@{}", i) }
+                else if b.starts_with("op_") {
+                    if b.ends_with("_s") { format!("@{}", i) } else { let ps = if self.coin(88) { s.clone() } else { self.compat(&s) }; let j = if self.coin(30) { i } else { self.partner(i, ps) }; format!("@{}|@{}", i, j) }
+                }
+                else if BIN_NUM.contains(&b) || BIN_OPS.contains(&b) || BIN_FLT.contains(&b) || STR_BINARY.contains(&b) { let ps = self.compat(&s); let j = self.partner(i, ps); format!("@{}|@{}", i, j) }
+                else { return false; }
+            }
+        };
+        if ["vdot", "outer", "inner", "matmul", "dot"].contains(&b) && !op.starts_with("u.") {
+            // the products model (C14) does not speak about operands without elements: monitor only there
+            if step_refs(&format!("x|{}", step)).iter().any(|&k| self.sh(k).iter().product::<usize>() == 0) { name = format!("u.{}", b); }
+        }
+        if VALDEP.contains(&b) && !op.starts_with("u.") {
+            let all_f = step_refs(&format!("x|{}", step)).iter().all(|&k| self.faithful.get(k).copied().unwrap_or(false));
+            if !all_f { name = format!("u.{}", b); }
+        }
+        self.push(format!("{}|{}", name, step));
+        true
+    }
+    fn reshape_target(&mut self, s: &[usize]) -> Vec<usize> {
+        let n: usize = s.iter().product();
+        let mut t: Vec<usize> = match self.rng.below(8) {
+            0 => vec![n],
+            1 => { let mut p = s.to_vec(); let k = self.rng.below(p.len() + 1); p.insert(k, 1); p }
+            2 => { let p = self.rng.perm(s.len()); p.iter().map(|&k| s[k]).collect() }
+            3 | 4 => { // factorise
+                let mut rest = n; let mut out = vec![];
+                while rest > 1 && out.len() < 3 { let divs: Vec<usize> = (2..=rest).filter(|d| rest % d == 0).collect(); let d = *self.rng.pick(&divs); out.push(d); rest /= d; }
+                if rest > 1 || out.is_empty() { out.push(rest); } out }
+            5 => if s.len() >= 2 { let mut p = s.to_vec(); let k = self.rng.below(p.len() - 1); let m = p[k] * p[k + 1]; p[k] = m; p.remove(k + 1); p } else { vec![1, n] },
+            6 => s.to_vec(),
+            _ => vec![n, 1],
+        };
+        if self.coin(10) { let k = self.rng.below(t.len().max(1)); if t.is_empty() { t.push(2) } else { t[k] += 1; } }   // refusal stream
+        t
+    }
+}
+
+fn all_ops() -> Vec<String> {
+    let mut v: Vec<String> = vec![];
+    v.extend(CTORS.iter().map(|s| s.to_string()));
+    v.extend(OPS_ALL.iter().map(|s| s.to_string()));
+    v.extend(OPS_NUM_EXTRA.iter().map(|s| s.to_string()));
+    v.extend(OPS_OPS_EXTRA.iter().map(|s| s.to_string()));
+    for l in [&FOLD_OPS[..], &EXTREME_OPS[..], &SCAN_OPS[..], &UNARY_NUM[..], &UNARY_OPS[..], &UNARY_FLT[..], &BIN_OPS[..], &BIN_FLT[..]] { v.extend(l.iter().map(|s| s.to_string())); }
+    v.extend(BIN_NUM.iter().filter(|s| **s != "_").map(|s| s.to_string()));
+    v.extend(["ldexp", "unpack_bits", "pack_bits", "u.frexp", "around", "u.geomspace_a", "u.logspace_a", "u.compare"].iter().map(|s| s.to_string()));
+    for o in ["add", "sub", "mul", "div", "rem", "bitand", "bitor", "bitxor"] { for sfx in ["", "_s", "_assign", "_assign_s"] { v.push(format!("op_{}{}", o, sfx)); } }
+    v.push("op_not".into());
+    v.extend(OPS_STR.iter().map(|s| s.to_string()));
+    v.extend(STR_UNARY.iter().map(|s| format!("u.{}", s)));
+    v.extend(STR_BINARY.iter().map(|s| format!("u.{}", s)));
+    v
+}
+/// element types an operation applies to
+fn types_for(op: &str) -> Vec<&'static str> {
+    let b = op.strip_prefix("u.").unwrap_or(op);
+    let all9 = ["i32", "i64", "u8", "usize", "f64", "bool", "str", "t2", "isize"];
+    if OPS_STR.contains(&op) || (op.starts_with("u.") && (STR_UNARY.contains(&b) || b == "compare" || (STR_BINARY.contains(&b)))) { return vec!["str"]; }
+    if ["new", "create", "single", "flat", "empty"].contains(&op) || OPS_ALL.contains(&op) { return all9.to_vec(); }
+    if b == "unpack_bits" || b == "pack_bits" { return vec!["u8"]; }
+    if b == "op_not" { return vec!["bool"]; }
+    if b.starts_with("op_bit") { return all9.iter().copied().filter(|t| is_int(t)).collect(); }
+    if UNARY_FLT.contains(&b) || BIN_FLT.contains(&b) || b == "ldexp" || b == "frexp" { return vec!["f64"]; }
+    if OPS_OPS_EXTRA.contains(&op) || FOLD_OPS.contains(&b) || SCAN_OPS.contains(&b) || UNARY_OPS.contains(&b) || BIN_OPS.contains(&b) || b.starts_with("op_") { return vec!["i32", "i64", "f64"]; }
+    all9.iter().copied().filter(|t| is_num(t)).collect()
+}
+
+fn emit_chain(g: &G, out: &mut dyn FnMut(String)) {
+    if g.steps.is_empty() { return; }
+    let label = label_of(g.steps.last().unwrap()).to_string();
+    out(format!("{} {}", label, g.steps.join(" ")));
+}
+
+fn gen(tier: &str, seed: u64, out: &mut dyn FnMut(String)) {
+    let thorough = tier == "thorough";
+    // (i) corpus of past failures / hand-written chains that hit the value-dependent and the bypass operations
+    for c in [
+        "trim_zeros zeros|2|#i64 new|3|1|3|#i64 zeros|1|#i64 concatenate|@0,1,2|none trim_zeros|@3",
+        "filter new|6|-2|2,3|#i64 filter|@0",
+        "unique new|6|0|2,3|#i64 resize|@0|3,4 unique|@1|none",
+        "divide new|6|1|2,3|#i64 new|3|0|3|#i64 divide|@0|@1",
+        "divide new|6|1|2,3|#i64 new|3|1|3|#i64 divide|@0|@1",
+        "op_bitand new|6|0|2,3|#u8 new|6|3|2,3|#u8 op_bitand|@0|@1 op_bitand_s|@2 op_bitand_assign|@2|@0 transpose|@4|none op_bitand|@5|@0",
+        "op_add new|6|0|2,3|#i32 new|6|3|3,2|#i32 op_add|@0|@1",
+        "add new|6|0|2,3|#i32 new|1|5|1|#i32 add|@0|@1 transpose|@2|none sum|@3|1",
+        "sum new|24|0|2,3,2,2|#f64 sum|@0|1 cumsum|@0|2 max|@0|-1",
+        "new new|5|0|2,3|#str", "create create|5|2,3|4|#bool", "reshape new|6|0|2,3|#t2 reshape|@0|4,2", "broadcast_to new|3|0|3|#usize broadcast_to|@0|2,4",
+        "resize new|0|0|0|#i64 resize|@0|2,2",
+    ] { out(c.to_string()); }
+    // (ii) exhaustive small scope: every operation of the inventory as a chain on base arrays of every applicable element type and shape
+    let bases: Vec<Vec<usize>> = vec![vec![], vec![0], vec![1], vec![4], vec![8], vec![2, 3], vec![3, 3], vec![1, 3], vec![3, 1], vec![2, 0], vec![2, 2, 2], vec![2, 1, 3], vec![2, 3, 4], vec![2, 0, 3], vec![2, 3, 2, 2], vec![1, 2, 1, 2]];
+    let reps = if thorough { 3 } else { 1 };
+    for (oi, op) in all_ops().iter().enumerate() {
+        for ty in types_for(op) {
+            for (bi, base) in bases.iter().enumerate() {
+                if CTORS.contains(&op.as_str()) && bi >= 6 { continue; }
+                for rep in 0..reps {
+                    let mut g = G::new(0xC01 + (oi * 1000 + bi * 10 + rep) as u64, if ty == "isize" { "i64" } else { ty });
+                    if !CTORS.contains(&op.as_str()) { g.fresh(ty, base); }
+                    if g.emit(op) { emit_chain(&g, out); }
+                }
+            }
+        }
+    }
+    // (iii) the refusal stream: element count that does not fit the requested shape
+    for ty in TYPES { for s in [vec![2usize, 3], vec![0], vec![], vec![1, 1], vec![2, 0, 2], vec![3]] {
+        let p: usize = s.iter().product();
+        for n in [p + 1, p + 2, p.saturating_sub(1), 0] { if n == p { continue; }
+            out(format!("new new|{}|0|{}|#{}", n, show_list(&s), ty));
+            out(format!("create create|{}|{}|3|#{}", n, show_list(&s), ty));
+            out(format!("reshape new|{}|0|{}|#{} reshape|@0|{}", n, n, ty, show_list(&s)));
+            if n > 0 && p != 0 { out(format!("broadcast_to new|{}|0|{}|#{} broadcast_to|@0|{}", n, n, ty, show_list(&s))); }
+        }
+    } }
+    // (iv) seeded random chains
+    let (n_chains, max_len) = if thorough { (60000, 40) } else { (7000, 12) };
+    let ops = all_ops();
+    let mut top = Rng::new(seed ^ 0x5EED_C01);
+    for c in 0..n_chains {
+        let ty = TYPES[top.below(TYPES.len())];
+        let mut g = G::new(top.next() ^ c as u64, ty);
+        let len = 1 + g.rng.below(max_len);
+        let s0 = g.shape(); g.fresh(ty, &s0);
+        let mut tries = 0;
+        while g.steps.len() < len && tries < 4 * max_len {
+            tries += 1;
+            let op = if g.coin(8) { CTORS[g.rng.below(CTORS.len())].to_string() } else if g.coin(45) { OPS_ALL[g.rng.below(OPS_ALL.len())].to_string() } else { ops[g.rng.below(ops.len())].clone() };
+            g.emit(&op);
+        }
+        emit_chain(&g, out);
+    }
+}
+
 // ---------------------------------------------------------------- exec: re-run the chain, monitor, compare with the model
 
 fn step_refs(step: &str) -> Vec<usize> {
@@ -564,6 +951,9 @@ fn exec(_op: &str, args: &[&str], expected: &str) -> Option<Verdict> {
         if o == "P" || e == "P" && o == "E" {
             // a panic / refusal class difference is C09's subject, not C01's: noted, comparison stops (stores diverge)
             open = Some(format!("step {} `{}`: real {} vs model {} (panic class, not judged by C01)", k, args[k], o, e)); break;
+        }
+        if e == "S" && name == "dot" {
+            open = Some(format!("step {} `{}`: an arm of dot (an operand of rank >= 3) that the products model does not cover", k, args[k])); break;
         }
         if o == "E" && e.starts_with('A') && (name == "hstack" || name == "dot") {
             open = Some(format!("step {} `{}`: refusal pinned by the crate's own tests (open finding of C11/C14)", k, args[k])); break;
